@@ -162,6 +162,15 @@ pub struct Universe {
 }
 
 impl Universe {
+    /// Does this universe hold a record of tens of kilobytes (an ASPA with
+    /// more providers than the library's constructor accepts)? Scenarios keep
+    /// their socket buffers above a few octets then: pushing hundreds of
+    /// kilobytes through a one-octet buffer is millions of polls, which the
+    /// run-away guard could not tell from a busy loop.
+    pub fn has_oversized(&self) -> bool {
+        self.provider_sets.iter().any(|p| p.len() > 16380)
+    }
+
     pub fn gen(t: &mut Tape) -> Self {
         let mut keys = Vec::new();
         // mostly small (so that updates collide), sometimes large (so that
@@ -617,6 +626,8 @@ pub struct TargetInner {
     /// The same data kept the way many real targets keep it: a hash set of
     /// the library's own `Payload` values, relying on their `Eq`/`Hash`.
     pub shadow: std::collections::HashSet<Payload>,
+    /// ... and the way other targets keep it: an ordered set relying on `Ord`.
+    pub shadow_ord: std::collections::BTreeSet<Payload>,
     /// First observed breach of the Eq/Hash law: an element equal (by the
     /// library's `Eq`) to the looked-up item exists but the hash lookup
     /// misses it, or the other way round.
@@ -633,6 +644,7 @@ impl TargetInner {
     /// the other way.
     pub fn seed(&mut self, set: DataSet, mut implicit: impl FnMut() -> bool) {
         self.shadow.clear();
+        self.shadow_ord.clear();
         for (k, v) in &set {
             let p = match k {
                 Key::Origin { v6, addr, plen, maxlen, asn } if plen == maxlen && implicit() => {
@@ -646,6 +658,7 @@ impl TargetInner {
                 }
                 _ => to_payload(k, v),
             };
+            self.shadow_ord.insert(p.clone());
             self.shadow.insert(p);
         }
         self.data = set;
@@ -723,17 +736,37 @@ impl PayloadTarget for ModelTarget {
         if update.reset {
             t.data.clear();
             t.shadow.clear();
+            t.shadow_ord.clear();
         }
         for (announce, p) in &update.raw {
             match p {
                 Payload::Aspa(a) => {
                     let customer = a.customer;
                     t.shadow.retain(|x| !matches!(x, Payload::Aspa(y) if y.customer == customer));
+                    t.shadow_ord.retain(|x| !matches!(x, Payload::Aspa(y) if y.customer == customer));
                     if *announce {
                         t.shadow.insert(p.clone());
+                        t.shadow_ord.insert(p.clone());
                     }
                 }
                 _ => {
+                    // the ordered set: "an equal element exists" (Eq, linear
+                    // scan) and "the ordered lookup finds one" (Ord) must agree
+                    let ord_by_eq = t.shadow_ord.iter().any(|x| x == p);
+                    let ord_by_cmp = t.shadow_ord.contains(p);
+                    if ord_by_eq != ord_by_cmp && t.identity_law_broken.is_none() {
+                        t.identity_law_broken = Some(format!(
+                            "{:?}: an equal element {} in the ordered set by Eq, but the lookup by Ord says {}",
+                            from_payload(p).0,
+                            if ord_by_eq { "is" } else { "is not" },
+                            if ord_by_cmp { "present" } else { "absent" }
+                        ));
+                    }
+                    if *announce {
+                        t.shadow_ord.replace(p.clone());
+                    } else {
+                        t.shadow_ord.remove(p);
+                    }
                     let by_eq = t.shadow.iter().any(|x| x == p);
                     let by_hash = t.shadow.contains(p);
                     if by_eq != by_hash && t.identity_law_broken.is_none() {
